@@ -156,6 +156,7 @@ def draw_params(tape, phase, prev):
     p['cdx'] = True
     p['log'] = tape.chance(1, 3, 'log')
     p['appending'] = prev is not None and tape.chance(2, 3, 'appending')
+    p['move_to'] = bool(p['max_size']) and tape.chance(1, 5, 'move_to')      # --warc-move: finished files go to another directory
     ef = None
     k = tape.draw(4, 'extra_fields')
     if k == 1:
@@ -235,7 +236,11 @@ def run_phase(tape, r, sandbox, phase, params, exs, url_table, timeout=60.0, io_
             wparams = WARCRecorderParams(
                 compress=params['compress'], extra_fields=params['extra_fields'], temp_dir=sandbox, log=params['log'],
                 appending=params['appending'], digests=params['digests'], cdx=params['cdx'], max_size=params['max_size'],
-                url_table=url_table, software_string='verif-sim/1')
+                url_table=url_table, software_string='verif-sim/1',
+                move_to=os.path.join(sandbox, 'moved') if params.get('move_to') else None)
+            if params.get('move_to'):
+                os.makedirs(os.path.join(sandbox, 'moved'), exist_ok=True)
+                r.probes['warc_move'] += 1
             recorder = WARCRecorder(os.path.join(sandbox, 'out'), params=wparams)
             recorder.listen_to_http_client(client)
             # FTP sessions interleaved with the HTTP ones (FTP recorder session: control conversation + resource records)
@@ -405,8 +410,13 @@ def check_files(r, sandbox, phases):
     """Parse every output file with the reference reader; return (records by file, cdx rows)."""
     files = {}
     all_records = []
-    for name in sorted(os.listdir(sandbox)):
-        path = os.path.join(sandbox, name)
+    listing = [(n, os.path.join(sandbox, n)) for n in sorted(os.listdir(sandbox))]
+    if os.path.isdir(os.path.join(sandbox, 'moved')):
+        for n in sorted(os.listdir(os.path.join(sandbox, 'moved'))):
+            if any(n == m for m, _ in listing):
+                r.violate('C05', 'warc-move', 'file-both-moved-and-present', n)
+            listing.append((n, os.path.join(sandbox, 'moved', n)))
+    for name, path in listing:
         if name.endswith('-wpullinc'):
             r.violate('C05', 'journal-left', 'journal-after-clean-run', name)
             continue
@@ -508,6 +518,8 @@ def run(tape, prop, tier):
             params = draw_params(tape, ph, prev)
             if killed_prev:
                 params['appending'] = True         # the rerun after a kill continues the same archive
+            if nphase == 2:
+                params['move_to'] = False          # (a second run would number its files from 0 again and collide in the target directory)
             n = tape.between(1, 6 if tier == 'thorough' else 5, 'nex')
             exs = gen_exchanges(tape, ph, n, faults_on, same_pool)
             if ph == 1 and same_pool is not None:
@@ -611,6 +623,14 @@ def run(tape, prop, tier):
     finally:
         logging.disable(logging.CRITICAL)
         shutil.rmtree(sandbox, ignore_errors=True)
+        # the sandbox has a random name: keep it out of everything that is hashed or compared between processes
+        r.trace = [t.replace(sandbox, '<sandbox>') for t in r.trace]
+        for v in r.violations:
+            v.detail = v.detail.replace(sandbox, '<sandbox>')
+        for ex in (r.sample or {}).get('exchanges', []) if isinstance(r.sample, dict) else []:
+            for o in ex.get('outcomes') or []:
+                if 'error' in o:
+                    o['error'] = o['error'].replace(sandbox, '<sandbox>')
     seen = set()
     uniq = []
     for v in r.violations:
@@ -694,6 +714,8 @@ def judge_c04(r, all_ex, records, phases):
 
 def judge_c07(r, sandbox, files, records, phases):
     cdx_path = os.path.join(sandbox, 'out.cdx')
+    if not os.path.exists(cdx_path) and os.path.exists(os.path.join(sandbox, 'moved', 'out.cdx')):
+        cdx_path = os.path.join(sandbox, 'moved', 'out.cdx')
     if not os.path.exists(cdx_path):
         r.violate('C07', 'cdx-missing', 'no-cdx-file', '')
         return
